@@ -13,8 +13,14 @@ Specs (spec/textio/):
   CifDoc.tla         low-level documents grown by AddPair/AddLoop with awkward values: written and read
                      back unchanged                                (Neg: text field on the tag's line)
   CifDocBuilder.tla  builder call sequences: SaveDoc reads back, every role id is the id of exactly one
-                     author, no author lost, content in call order  (Neg: all authors share one id)
-  Trace_Cif.tla      judge of text produced by the real code
+                     author, no author lost, content in call order, the block carries the name given last
+                     (Neg: all authors share one id)
+  CifObjDefs.tla     the low-level objects with identity: chunks / loops extended after construction and after
+                     they were added to blocks, blocks referring to shared chunks, Block.add, Block.copy
+  CifObjects.tla     short object programs: every block reads back, an add changes exactly one block, a pair set
+                     on a chunk shows in exactly the blocks referring to it  (Neg: copies share the content list)
+  Trace_Cif.tla      judge of text produced by the real code (lexer: a CR ends a comment; the version
+                     identifier, if present, must be #\\#CIF_1.1)
 
 Conformance (the produced text goes to TLC as code points; Trace_Cif lexes + parses it with the
 specification's own operators and compares with the supplied document):
@@ -23,9 +29,21 @@ specification's own operators and compares with the supplied document):
       written through cif.Chunk (pair) and cif.Loop (first and last column) -> Block -> save_cif;
       random blocks of chunks and loops with 1..50 rows x 1..6 columns, several blocks per file,
       comments everywhere, path and file-object targets.
-  M2  random programs over cif.CIF (with_authors with/without roles, with_beamline, with_reducers,
-      with_reduced_powder_data, with_powder_calibration, copy, save, branching from earlier
-      builders); the event carries the *calls*, the expected document is computed by TLC (SaveDoc).
+      Hardening: data names in any (not the sorted) order; numbers as numpy scalars, 32-bit scalars and
+      32-bit loop columns; loop columns that are strided / 2-D-column views; comments whose lines end in
+      CR LF or a bare CR.
+  M2  random programs over cif.CIF (with_authors with/without roles and with the same person listed
+      twice, with_beamline, with_reducers, with_reduced_powder_data - data sliced out of 2-D stacks or
+      longer runs, further coordinates in any order, integer / single-precision numbers -,
+      with_powder_calibration, copy, the name setter on a derived builder, save / save_cif(builder) /
+      save_cif(builder, comment=) to buffers and paths, branching from earlier builders); the event
+      carries the *calls*, the expected document is computed by TLC (SaveDoc).
+  M3  random programs over Chunk / Loop / Block objects (CifObjDefs): incremental construction,
+      Block.add of objects and mappings, Block.copy, the same dict / list object handed to several
+      constructors, any iterable of blocks; the event carries the *operations*, the expected document
+      is computed by TLC (ObjDoc).
+  M4  history: a sample of the low-level plans and of the builders is written again at the very end, in
+      another order (same objects for the builders).
 
 Numbers: TLC cannot compare decimals with doubles.  The harness reads the token that stands where the
 number was supplied (helper lexer in lib_textio), compares it numerically (lib_textio.number_ok /
@@ -85,6 +103,12 @@ class Val:
         if self.kind == 'n':
             if self.wrap == 'raw':
                 return self.v
+            if self.wrap in ('np', 'np32'):     # numpy scalars handed over as they come out of numpy code
+                if isinstance(self.v, int):
+                    return (np.int32 if self.wrap == 'np32' else np.int64)(self.v)
+                return (np.float32 if self.wrap == 'np32' else np.float64)(self.v)
+            if self.wrap == 's32':              # 0-d variables of 32-bit dtype
+                return sc.scalar(self.v, dtype='int32' if isinstance(self.v, int) else 'float32')
             return sc.scalar(self.v, unit='deg' if self.wrap == 'unit' else None)
         if self.kind == 'nv':
             return sc.scalar(float(self.v), variance=float(self.var), unit='deg' if self.wrap == 'unit' else None)
@@ -135,8 +159,35 @@ _SPECIAL_FLOATS = [0.0, -0.0, 5e-324, 2.2250738585072014e-308, -2.22507385850720
                    -1.7976931348623157e308, 1 / 3, math.pi, 1e300, 1e-300, 1e22, 1e-7, 123456789.125, 0.1, -2.5]
 
 
+def f32(x):
+    """The double that single precision holds for x (the supplied number of a float32 operand)."""
+    return float(np.float32(x))
+
+
+def rand_f32(rng):
+    """A single-precision number outside 1e7 <= |x| < 1e16: in that band numpy prints the shortest digits that
+    identify the float32 and pads them with zeros ('-42670174000.0' for -42670174208), which reads as a claim of more
+    digits than single precision has - not judged (see the assumptions)."""
+    k = rng.randrange(5)
+    if k == 0:
+        return f32(rng.uniform(-1000, 1000))
+    if k == 1:
+        return f32(rng.choice([0.1, 1 / 3, 0.0, -2.5, 1e-7, 93.2]))
+    if k == 2:
+        return f32(rng.choice([-1, 1]) * 10 ** rng.uniform(-30, 6.9))
+    if k == 3:
+        return f32(rng.choice([-1, 1]) * 10 ** rng.uniform(16.1, 30))
+    return f32(float(rng.randrange(-10**6, 10**6)))
+
+
 def rand_number(rng):
-    k = rng.randrange(6)
+    k = rng.randrange(8)
+    if k == 6:    # numpy scalars, 64 bit
+        return Val('n', rng.choice([rand_finite(rng), rng.choice(_SPECIAL_FLOATS), rng.randrange(-10**9, 10**9), -(2**63), 2**63 - 1,
+                                    rng.uniform(-1000, 1000)]), wrap='np')
+    if k == 7:    # single precision / 32-bit integers, as numpy scalars and as 0-d variables
+        v = rng.choice([rand_f32(rng), rand_f32(rng), rand_f32(rng), rng.randrange(-2**31, 2**31), 0, -7])
+        return Val('n', v, wrap=rng.choice(['np32', 's32']))
     if k == 0:
         return Val('n', rand_finite(rng), wrap=rng.choice(['raw', 'scalar', 'unit']))
     if k == 1:
@@ -218,10 +269,13 @@ def rand_comment(rng):
     if k == 1:
         return 'plain comment'
     if k == 2:
-        return rng.choice(['_tag value', 'loop_', 'data_x', ';', ';\n;', "'", '#', 'a\n_b c\nloop_\n_x\n1 2', '\n', 'x\n'])
+        return rng.choice(['_tag value', 'loop_', 'data_x', ';', ';\n;', "'", '#', 'a\n_b c\nloop_\n_x\n1 2', '\n', 'x\n',
+                           # lines ending in CR LF or in a bare CR (text that came from another platform): a CR ends a line in CIF
+                           'first line\r\nsecond line', 'a\r_b c', 'x\rloop_\r_y\r1 2', '\r', 'text\r', 'a\r\n_b c\r\n',
+                           "quote ' in a comment\r'and after", 'data_leak\r\ndata_leak2'])
     if k == 3:
         return rand_string(rng)
-    return '\n'.join(rand_string(rng, 10).replace('\n', ' ') for _ in range(rng.randrange(1, 4)))
+    return rng.choice(['\n', '\n', '\r\n', '\r']).join(rand_string(rng, 10).replace('\n', ' ') for _ in range(rng.randrange(1, 4)))
 
 
 def rand_name(rng):
@@ -251,16 +305,42 @@ class Doc:
         return out
 
 
-def _column(vals, rng_unit):
+def _column(vals, rng_unit, layout='plain', narrow=False):
+    """One loop column.  layout: 'plain' | 'step' (every second element of a longer variable) | 'col2d' (a column of a
+    2-D variable) - non-contiguous views of the same numbers; narrow: 32-bit dtype (numbers without variances that single
+    precision / int32 hold exactly)."""
     kind = vals[0].kind
+    n = len(vals)
+    variances = None
     if kind == 's':
-        return sc.array(dims=['row'], values=[v.v for v in vals])
-    if kind == 'nv':
-        return sc.array(dims=['row'], values=np.array([float(v.v) for v in vals]),
-                        variances=np.array([float(v.var) for v in vals]), unit=rng_unit)
-    if all(isinstance(v.v, int) for v in vals):
-        return sc.array(dims=['row'], values=np.array([v.v for v in vals], dtype='int64'), unit=rng_unit)
-    return sc.array(dims=['row'], values=np.array([float(v.v) for v in vals]), unit=rng_unit)
+        values, dtype = np.array([v.v for v in vals], dtype=object), None
+    elif kind == 'nv':
+        values, variances, dtype = np.array([float(v.v) for v in vals]), np.array([float(v.var) for v in vals]), 'float64'
+    elif all(isinstance(v.v, int) for v in vals):
+        values, dtype = np.array([v.v for v in vals], dtype='int64'), ('int32' if narrow else 'int64')
+    else:
+        values, dtype = np.array([float(v.v) for v in vals]), ('float32' if narrow else 'float64')
+
+    def var(dims, vv, ss):
+        if kind == 's':
+            return sc.array(dims=dims, values=vv.tolist())
+        return sc.array(dims=dims, values=vv, variances=ss, unit=rng_unit, dtype=dtype)
+
+    if layout == 'step':
+        big = np.empty(2 * n, dtype=values.dtype)
+        big[0::2], big[1::2] = values, values[::-1]
+        bigv = None if variances is None else np.repeat(variances, 2)
+        return var(['row'], big, bigv)['row', 0::2]
+    if layout == 'col2d' and kind == 's':
+        one = sc.array(dims=['row'], values=values.tolist())
+        other = sc.array(dims=['row'], values=values[::-1].tolist())
+        return sc.concat([other, one], 'z').transpose(['row', 'z']).copy()['z', 1]
+    if layout == 'col2d':
+        big = np.empty((n, 2), dtype=values.dtype)
+        big[:, 1], big[:, 0] = values, values[::-1]
+        bigv = None if variances is None else np.stack([variances, variances], axis=1)
+        return var(['row', 'z'], big, bigv)['z', 1]
+    return var(['row'], values, variances)
 
 
 def write_lowlevel(doc: Doc, tmpdir):
@@ -275,7 +355,9 @@ def write_lowlevel(doc: Doc, tmpdir):
                 content.append(pairs if it.get('as_dict') and not it.get('comment')
                                else cif.Chunk(pairs, comment=it.get('comment', '')))
             else:
-                content.append(cif.Loop({tag: _column(col, it.get('unit')) for tag, col in zip(it['tags'], it['cols'], strict=True)},
+                lay, nar = it.get('layouts') or ['plain'] * len(it['tags']), it.get('narrow') or [False] * len(it['tags'])
+                content.append(cif.Loop({tag: _column(col, it.get('unit'), lay[q], nar[q])
+                                         for q, (tag, col) in enumerate(zip(it['tags'], it['cols'], strict=True))},
                                         comment=it.get('comment', '')))
         blocks.append(cif.Block(b['name'], content, comment=b.get('comment', '')))
     arg = blocks[0] if len(blocks) == 1 and doc.target != 'list' else blocks
@@ -316,7 +398,7 @@ def lowlevel_event(ctx, tid, doc: Doc, tmpdir):
             eitems.append({'k': kind, 'tags': [T.cps(t) for t in tags], 'vals': cells})
         blocks.append({'name': T.cps(name), 'items': eitems})
     ev = {'tid': tid, 'api': 'lowlevel', 'out': 'text' if text is not None else 'raised',
-          'text': T.cps(text) if text is not None else [], 'blocks': blocks, 'name': [], 'calls': []}
+          'text': T.cps(text) if text is not None else [], 'blocks': blocks, 'name': [], 'calls': [], 'ops': []}
     return ev, meta
 
 
@@ -357,7 +439,18 @@ def rand_column(rng, nrow, flavour, nasty_budget):
         return [rand_number_var(rng) for _ in range(nrow)]
     if k == 4:
         return [Val('n', rng.randrange(-10**6, 10**6)) for _ in range(nrow)]
+    if rng.random() < 0.25:     # numbers that single precision holds exactly (the column may then be float32)
+        return [Val('n', rand_f32(rng)) for _ in range(nrow)]
     return [Val('n', rand_finite(rng) if rng.random() < 0.5 else rng.choice(_SPECIAL_FLOATS)) for _ in range(nrow)]
+
+
+def narrow_ok(col):
+    """The numbers of the column are held exactly by int32 / float32 (and carry no variances)."""
+    if any(v.kind != 'n' for v in col):
+        return False
+    if all(isinstance(v.v, int) for v in col):
+        return all(-2**31 <= v.v < 2**31 for v in col)
+    return all(math.isfinite(f32(v.v)) and f32(v.v) == float(v.v) for v in col)
 
 
 def rand_doc(rng, flavour, counter):
@@ -375,7 +468,8 @@ def rand_doc(rng, flavour, counter):
             j = counter[0]
             if rng.random() < 0.5:
                 pairs = []
-                for q in range(rng.randrange(1, 5)):
+                npairs = rng.randrange(1, 5)
+                for q in rng.sample(range(npairs), npairs):       # data names in any order, not the sorted one
                     r = rng.random()
                     if r < 0.6:
                         if flavour == 'all' or (flavour == 'one' and budget[0] > 0 and rng.random() < 0.1):
@@ -395,9 +489,11 @@ def rand_doc(rng, flavour, counter):
             else:
                 ncol = rng.randrange(1, 7)
                 nrow = rng.choice([1, 1, 2, 3, 5, 8, 20, 50, rng.randrange(1, 51)])
-                items.append({'k': 'loop', 'tags': [f'i{j}.c{q}' for q in range(ncol)],
-                              'cols': [rand_column(rng, nrow, flavour, budget) for _ in range(ncol)],
-                              'comment': rand_comment(rng), 'unit': rng.choice([None, 'one', 'us'])})
+                cols = [rand_column(rng, nrow, flavour, budget) for _ in range(ncol)]
+                items.append({'k': 'loop', 'tags': [f'i{j}.c{q}' for q in rng.sample(range(ncol), ncol)],     # any order
+                              'cols': cols, 'comment': rand_comment(rng), 'unit': rng.choice([None, 'one', 'us']),
+                              'layouts': [rng.choice(['plain', 'plain', 'step', 'col2d']) for _ in range(ncol)],
+                              'narrow': [rng.random() < 0.6 and narrow_ok(col) for col in cols]})
         blocks.append({'name': name, 'items': items, 'comment': rand_comment(rng)})
     return Doc(blocks, comment=rand_comment(rng), target=rng.choice(['buffer'] * 6 + ['path', 'strpath', 'list']),
                label=f'random blocks ({flavour})')
@@ -424,7 +520,8 @@ def _scell(v):
 
 
 class BState:
-    """A real builder together with the calls that produced it."""
+    """A real builder together with the calls that produced it (name = the name its first ancestor was constructed
+    with; a later use of the name setter is one of the calls)."""
 
     def __init__(self, obj, name, calls, strings, comments):
         self.obj, self.name, self.calls, self.strings, self.comments = obj, name, calls, strings, comments
@@ -445,10 +542,15 @@ def builder_step(rng, st, src: BState):
     from scippneutron import metadata
     from scippneutron.io import cif
 
-    op = rng.choice(['authors', 'authors', 'beamline', 'reducers', 'data', 'calib', 'copy'])
+    op = st.get('force_op') or rng.choice(['authors', 'authors', 'beamline', 'reducers', 'data', 'calib', 'copy', 'rename'])
     calls, strings, comments = list(src.calls), list(src.strings), list(src.comments)
     if op == 'copy':
         return BState(src.obj.copy(), src.name, [*calls, {'op': 'copy'}], strings, comments)
+    if op == 'rename':      # the name setter, used on a derived builder: the builder it was derived from keeps its name
+        new = src.obj.copy()
+        newname = rand_name(rng)
+        new.name = newname
+        return BState(new, src.name, [*calls, {'op': 'copy'}, {'op': 'rename', 'name': T.cps(newname)}], strings, comments)
     if op == 'authors':
         people, cells = [], []
         for _ in range(rng.choice([1, 1, 2, 3])):
@@ -467,6 +569,12 @@ def builder_step(rng, st, src: BState):
             cells.append({'name': _scell(name), 'email': _scell(email), 'address': _scell(address),
                           'orcid': _scell('https://orcid.org/' + orcid if orcid else None), 'role': _scell(role), 'corr': corr})
             strings += [s for s in (name, role, address) if s]
+            st.setdefault('people', []).append((p, cells[-1]))
+        if rng.random() < 0.3:       # the same person listed again (same object / added by an earlier call as well)
+            p, cell = rng.choice(st['people']) if rng.random() < 0.5 else (people[0], cells[0])
+            k = rng.randrange(len(people) + 1)
+            people.insert(k, p)
+            cells.insert(k, cell)
         return BState(src.obj.with_authors(*people), src.name, [*calls, {'op': 'authors', 'people': cells}], strings, comments)
     if op == 'reducers':
         items = [_pick_str(rng, st) or 'prog 1' for _ in range(rng.choice([1, 1, 2, 3]))]
@@ -499,25 +607,87 @@ def builder_step(rng, st, src: BState):
         cvar, yvar = rng.random() < 0.3, rng.random() < 0.7
         xs = [rand_number_var(rng) for _ in range(n)]
         ys = [rand_number_var(rng) for _ in range(n)]
-        cv = sc.array(dims=[coord], values=np.array([float(v.v) for v in xs]),
-                      variances=np.array([float(v.var) for v in xs]) if cvar else None, unit='us' if coord == 'tof' else 'angstrom')
-        yv = sc.array(dims=[coord], values=np.array([float(v.v) for v in ys]),
-                      variances=np.array([float(v.var) for v in ys]) if yvar else None, unit=rng.choice(['one', 'counts']))
-        da = sc.DataArray(yv, coords={coord: cv}, name=yname)
+        # dtypes (HARDENING 1): integer coordinates (whole microseconds) / counts, single precision - only without
+        # variances, the supplied numbers are then the integers / the doubles that single precision holds
+        cdt = ydt = 'float64'
+        if st.get('force_op'):
+            cvar, yvar = cvar and not st.get('force_cdt'), yvar and not st.get('force_ydt')
+        if st.get('force_cdt') or (not cvar and rng.random() < 0.25):
+            cdt = st.get('force_cdt') or rng.choice(['int64', 'int32', 'float32'])
+            xs = [Val('n', rng.randrange(0, 10**6) if cdt != 'float32' else rand_f32(rng)) for v in xs]
+        if st.get('force_ydt') or (not yvar and rng.random() < 0.25):
+            ydt = st.get('force_ydt') or rng.choice(['int64', 'int32', 'float32'])
+            ys = [Val('n', rng.randrange(0, 10**6) if ydt != 'float32' else rand_f32(rng)) for v in ys]
+        cunit, yunit = 'us' if coord == 'tof' else 'angstrom', rng.choice(['one', 'counts'])
+        xa = np.array([v.v for v in xs], dtype=cdt)
+        ya = np.array([v.v for v in ys], dtype=ydt)
+        xv = np.array([float(v.var) for v in xs]) if cvar else None
+        yvv = np.array([float(v.var) for v in ys]) if yvar else None
+        layout = rng.choice(['plain', 'plain', 'row_of_2d', 'col_of_2d', 'range'])
+        # other coordinates next to the one named like the dimension, inserted before or after it (HARDENING 3, 7)
+        extra = rng.sample(['two_theta', 'wavelength', 'a', 'zz', 'Q'], rng.choice([0, 0, 1, 2]))
+        names = [coord, *extra]
+        rng.shuffle(names)
+
+        def coords_for(length, cvals, cvars):
+            out = {}
+            for nm in names:
+                if nm == coord:
+                    out[nm] = sc.array(dims=[coord], values=cvals, variances=cvars, unit=cunit, dtype=cdt)
+                else:
+                    out[nm] = sc.array(dims=[coord], values=np.arange(length) * 1.5 + 7.0, unit=rng.choice(['deg', 'angstrom', 'us']))
+            return out
+
+        if layout == 'plain':
+            da = sc.DataArray(sc.array(dims=[coord], values=ya, variances=yvv, unit=yunit, dtype=ydt), coords=coords_for(n, xa, xv))
+        elif layout == 'range':     # a range of a longer measurement
+            a, b = rng.randrange(0, 3), rng.randrange(0, 3)
+            pad = lambda arr, fill: None if arr is None else np.concatenate([np.full(a, fill, dtype=arr.dtype), arr, np.full(b, fill, dtype=arr.dtype)])  # noqa: E731
+            parent = sc.DataArray(sc.array(dims=[coord], values=pad(ya, 77), variances=pad(yvv, 3.0), unit=yunit, dtype=ydt),
+                                  coords=coords_for(n + a + b, pad(xa, 99), pad(xv, 2.0)))
+            da = parent[coord, a:a + n]
+        else:                       # one spectrum of a stack (the usual origin of powder data): strided or offset view
+            m = rng.randrange(2, 4)
+            k0 = rng.randrange(m)
+            shape, dims, idx = ((n, m), [coord, 'spectrum'], (slice(None), k0)) if layout == 'col_of_2d' else \
+                               ((m, n), ['spectrum', coord], (k0, slice(None)))
+            yy = np.full(shape, 55, dtype=ya.dtype)
+            yy[idx] = ya
+            vv = None
+            if yvv is not None:
+                vv = np.full(shape, 4.0)
+                vv[idx] = yvv
+            cs = coords_for(n, xa, xv)
+            if rng.random() < 0.5:
+                cs['spectrum'] = sc.arange('spectrum', m, unit=None)
+            parent = sc.DataArray(sc.array(dims=dims, values=yy, variances=vv, unit=yunit, dtype=ydt), coords=cs)
+            da = parent['spectrum', k0]
+        da.name = yname
+        st['doing'] = 'with_reduced_powder_data' + (' with integer-typed coordinate' if cdt.startswith('int') else
+                                                    ' with integer-typed intensities' if ydt.startswith('int') else '')
+        st['int_operand'] = cdt.startswith('int') or ydt.startswith('int')
         new = src.obj.with_reduced_powder_data(da, comment=comment)
         call = {'op': 'data', 'coord': coord, 'yname': yname or 'intensity_norm', 'cvar': cvar, 'yvar': yvar, 'n': n,
-                '_xs': xs, '_ys': ys}
+                '_xs': xs, '_ys': ys, '_int': st['int_operand']}
         return BState(new, src.name, [*calls, call], strings, comments)
     # calibration
     n = rng.choice([1, 2, 3, 4])
-    powers = rng.sample([0, 1, 2, -1, 3, -2], n)
+    powers = rng.sample([0, 1, 2, -1, 3, -2], n) if rng.random() < 0.7 else rng.sample([0.0, 1.0, 2.0, -1.0, 0.5, 1.5, -0.5], n)
     hasvar = rng.random() < 0.5
     cs = [rand_number_var(rng) for _ in range(n)]
-    cal = sc.DataArray(sc.array(dims=['cal'], values=np.array([float(v.v) for v in cs]),
+    caldt = 'float64'
+    if st.get('force_caldt'):
+        hasvar = False
+    if st.get('force_caldt') or (not hasvar and rng.random() < 0.25):      # integer / single-precision coefficients
+        caldt = st.get('force_caldt') or rng.choice(['int64', 'float32'])
+        cs = [Val('n', rng.randrange(-10**6, 10**6) if caldt == 'int64' else rand_f32(rng)) for _ in range(n)]
+    cal = sc.DataArray(sc.array(dims=['cal'], values=np.array([v.v for v in cs], dtype=caldt),
                                 variances=np.array([float(v.var) for v in cs]) if hasvar else None),
                        coords={'power': sc.array(dims=['cal'], values=powers)})
+    st['doing'] = 'with_powder_calibration' + (' with integer-typed coefficients' if caldt == 'int64' else '')
+    st['int_operand'] = caldt == 'int64' or all(isinstance(p, int) for p in powers)
     new = src.obj.with_powder_calibration(cal, comment=comment)
-    call = {'op': 'calib', 'hasvar': hasvar, 'n': n, '_powers': powers, '_cs': cs}
+    call = {'op': 'calib', 'hasvar': hasvar, 'n': n, '_powers': powers, '_cs': cs, '_int': st['int_operand']}
     return BState(new, src.name, [*calls, call], strings, comments)
 
 
@@ -579,7 +749,7 @@ def builder_event(tid, bs: BState, text, exc):
         else:
             calls.append(c)
     return {'tid': tid, 'api': 'builder', 'out': 'text' if text is not None else 'raised',
-            'text': T.cps(text) if text is not None else [], 'blocks': [], 'name': T.cps(bs.name), 'calls': calls}
+            'text': T.cps(text) if text is not None else [], 'blocks': [], 'name': T.cps(bs.name), 'calls': calls, 'ops': []}
 
 
 def _resolve(cell, text):
@@ -589,10 +759,49 @@ def _resolve(cell, text):
     return cell
 
 
-def run_builder_program(ctx, rng, flavour, tid0, events, metas):
+def refused_int(ctx):
+    ctx.extra['integer_operands_refused_with_DTypeError'] = ctx.extra.get('integer_operands_refused_with_DTypeError', 0) + 1
+
+
+def save_builder(ctx, rng, target: BState, how=None):
+    """One save of a builder: CIF.save / save_cif(builder) / save_cif(builder, comment=...) to a buffer, CIF.save to a
+    path or a str path.  -> (text or None, exception text or None, how)"""
     from scippneutron.io import cif
 
-    st = {'flavour': flavour, 'budget': 1}
+    how = how or rng.choice(['save', 'save', 'save', 'save_cif', 'save_cif_comment', 'path', 'strpath'])
+    text, exc = None, None
+    try:
+        if how in ('path', 'strpath'):
+            p = ctx.tmp / 'c14-builder.cif'
+            target.obj.save(p if how == 'path' else str(p))
+            text = p.read_text(encoding='utf-8', errors='surrogateescape')
+        else:
+            buf = io.StringIO()
+            if how == 'save':
+                target.obj.save(buf)
+            elif how == 'save_cif':
+                cif.save_cif(buf, target.obj)
+            else:
+                cif.save_cif(buf, target.obj, comment=rand_comment(rng) or 'another comment')
+            text = buf.getvalue()
+    except Exception as e:  # noqa: BLE001
+        exc = f'{type(e).__name__}: {e}'[:300]
+    return text, exc, how
+
+
+def record_builder_save(ctx, rng, tid, target, flavour, events, metas, phase='main', orig=None):
+    text, exc, how = save_builder(ctx, rng, target)
+    events.append(builder_event(tid, target, text, exc))
+    metas[tid] = {'api': 'builder', 'bs': target, 'text': text, 'exc': exc, 'how': how,
+                  'exc_type': exc.split(':')[0] if exc else None, 'flavour': flavour, 'phase': phase, 'orig': orig}
+    ctx.case(nontrivial_id=('b', tid) if len(target.calls) >= 2 else None)
+
+
+def run_builder_program(ctx, rng, flavour, tid0, events, metas, keep=None, force=None):
+    """force: a one-call program with the given operation / dtypes (the dtype cases in every run, whatever the seed)."""
+    from scippneutron.io import cif
+
+    st = {'flavour': flavour, 'budget': 1, **(force or {})}
     name = rand_name(rng)
     comment = rand_comment(rng)
     try:
@@ -601,31 +810,201 @@ def run_builder_program(ctx, rng, flavour, tid0, events, metas):
         ctx.violation(f'builder: cif.CIF() raised {type(e).__name__} for a valid block name', {'name': name, 'exc': repr(e)})
         return tid0
     tid = tid0
-    nsteps = rng.randrange(1, 8)
+    nsteps = rng.randrange(1, 8) if not force else 1
     for step in range(nsteps):
         src = rng.choice(pool)
+        st['doing'], st['int_operand'] = 'with_* call', False
         try:
             new = builder_step(rng, st, src)
         except Exception as e:  # noqa: BLE001
-            ctx.violation(f'builder: with_* call raised {type(e).__name__} for admissible input',
+            if type(e).__name__ == 'DTypeError' and st['int_operand']:
+                # lead decision: a scipp DTypeError for a call that was handed an integer-typed numeric operand is a refusal
+                # ("not supported"), not a wrong document - accepted; documents produced from integer data are judged in full
+                refused_int(ctx)
+                continue
+            ctx.violation(f'builder: {st["doing"]} raised {type(e).__name__} for admissible input',
                           {'calls': [c['op'] for c in src.calls], 'exc': repr(e)[:300]})
             continue
         pool.append(new)
         if step == nsteps - 1 or rng.random() < 0.35:
             for target in (new, rng.choice(pool)) if rng.random() < 0.3 else (new,):
                 for _ in range(2 if rng.random() < 0.2 else 1):   # a second save of the same builder is a program too
-                    buf = io.StringIO()
-                    text, exc = None, None
-                    try:
-                        target.obj.save(buf)
-                        text = buf.getvalue()
-                    except Exception as e:  # noqa: BLE001
-                        exc = f'{type(e).__name__}: {e}'[:300]
-                    events.append(builder_event(tid, target, text, exc))
-                    metas[tid] = {'api': 'builder', 'bs': target, 'text': text, 'exc': exc,
-                                  'exc_type': exc.split(':')[0] if exc else None, 'flavour': flavour}
-                    ctx.case(nontrivial_id=('b', tid) if len(target.calls) >= 2 else None)
+                    record_builder_save(ctx, rng, tid, target, flavour, events, metas)
+                    if keep is not None:
+                        keep.append((target, flavour, tid))
                     tid += 1
+    return tid
+
+
+# ------------------------------------------------------------------------------------------ object programs
+def _obj_cell(v):
+    if all(ord(c) < 127 for c in v):
+        return {'t': 's', 's': T.cps(v), 'ok': True}
+    return {'t': 'x', 's': _ascii_shadow(v), 'ok': True, '_nonascii': v}
+
+
+def _strip_private(o, text):
+    """The operation as TLC gets it: non-ASCII cells resolved against the produced text."""
+    if isinstance(o, dict):
+        if '_nonascii' in o:
+            return {'t': 'x', 's': o['s'], 'ok': text is not None and T.ascii_parts_kept(text, o['_nonascii'])}
+        return {k: _strip_private(v, text) for k, v in o.items() if not k.startswith('_')}
+    if isinstance(o, list):
+        return [_strip_private(v, text) for v in o]
+    return o
+
+
+def run_object_program(ctx, rng, flavour, tid0, events, metas):
+    """A random program over Chunk / Loop / Block objects (spec/textio/CifObjDefs.tla): objects are built step by
+    step, extended after they were added to a block, shared between blocks, blocks are copied; the same dict / list
+    objects are handed to several constructors.  Every write is one event that carries the operations so far; the
+    expected document is computed by TLC (ObjDoc)."""
+    from scippneutron.io import cif
+
+    chunks, loops, blocks = [], [], []          # the real objects, indices as in the specification (1-based there)
+    loop_rows = []
+    ops, feats, strings = [], set(), []
+    counter = [0]
+    tid = tid0
+    last_dict = last_cols = last_list = None    # argument objects that may be handed over a second time
+
+    def value():
+        v = rand_any(rng, 14) if flavour == 'all' or (flavour == 'one' and rng.random() < 0.1) else rand_benign(rng, 14)
+        if T.str_class(v) == 'lf_semi':
+            v = 'plain'      # unrepresentable strings are the business of the other generators
+        strings.append(v)
+        return v
+
+    def tag():
+        counter[0] += 1
+        return f'o{counter[0]}.{rng.choice(["zeta", "alpha", "m10", "m9", "beta"])}'
+
+    def pairs_of(d):
+        return [{'tag': T.cps(k), 'cell': _obj_cell(v)} for k, v in d.items()]
+
+    nops = rng.randrange(3, 11)
+    # every fourth program starts with two chunks made from one dict object, one of which then gets another pair
+    forced = ['chunk', 'chunk_same', 'set_first', 'block_all'] if rng.random() < 0.25 else []
+    if forced:
+        nops = max(nops, 6)
+    for step in range(nops):
+        kinds = ['chunk', 'chunk', 'loop', 'block', 'block']
+        if chunks:
+            kinds += ['set', 'set']
+        if loops:
+            kinds += ['col']
+        if blocks:
+            kinds += ['add', 'add', 'adddict', 'copy', 'write']
+        k = rng.choice(kinds) if step < nops - 1 else ('write' if blocks else 'block')
+        how_forced = None
+        if step < len(forced):
+            how_forced = forced[step]
+            k = {'chunk_same': 'chunk', 'set_first': 'set', 'block_all': 'block'}.get(how_forced, how_forced)
+        try:
+            if k == 'chunk':
+                if how_forced == 'chunk':
+                    d = {tag(): value() for _ in range(2)}
+                elif last_dict is not None and (how_forced == 'chunk_same' or rng.random() < 0.3):
+                    d = last_dict                       # the very same dict object as an earlier chunk
+                    feats.add('one dict object handed to two chunks')
+                else:
+                    d = {tag(): value() for _ in range(rng.choice([0, 1, 1, 2, 3]))}
+                last_dict = d
+                how = rng.choice(['dict', 'tuples', 'none']) if not d else 'dict' if how_forced else rng.choice(['dict', 'dict', 'tuples'])
+                chunks.append(cif.Chunk(d if how == 'dict' else list(d.items()) if how == 'tuples' else None, comment=rand_comment(rng)))
+                ops.append({'op': 'chunk', 'pairs': pairs_of(d)})
+            elif k == 'set':
+                named = [i for i, c in enumerate(chunks) if c is not None]
+                if not named:
+                    continue
+                c = named[0] if how_forced else rng.choice(named)
+                t, v = tag(), value()
+                chunks[c][t] = v
+                ops.append({'op': 'set', 'c': c + 1, 'tag': T.cps(t), 'cell': _obj_cell(v)})
+                feats.add('pair set after construction')
+            elif k == 'loop':
+                if last_cols is not None and rng.random() < 0.3:
+                    cols, nrow = last_cols
+                    feats.add('one dict object handed to two loops')
+                else:
+                    nrow = rng.choice([1, 2, 3])
+                    cols = {tag(): [value() for _ in range(nrow)] for _ in range(rng.choice([1, 1, 2, 3]))}
+                    cols = {t: sc.array(dims=['row'], values=vs) for t, vs in cols.items()}
+                last_cols = (cols, nrow)
+                loops.append(cif.Loop(cols, comment=rand_comment(rng)))
+                loop_rows.append(nrow)
+                ops.append({'op': 'loop', 'cols': [{'tag': T.cps(t), 'cells': [_obj_cell(x) for x in var.values]} for t, var in cols.items()]})
+            elif k == 'col':
+                i = rng.randrange(len(loops))
+                t, vs = tag(), [value() for _ in range(loop_rows[i])]
+                loops[i][t] = sc.array(dims=['row'], values=vs)
+                ops.append({'op': 'col', 'l': i + 1, 'tag': T.cps(t), 'cells': [_obj_cell(x) for x in vs]})
+                feats.add('column set after construction')
+            elif k == 'block':
+                if how_forced == 'block_all':
+                    refs = [('c', i) for i in range(len(chunks)) if chunks[i] is not None]
+                    content = [chunks[i] for _, i in refs]
+                elif last_list is not None and rng.random() < 0.3:
+                    content, refs = last_list           # the very same list object as an earlier block
+                    feats.add('one list object handed to two blocks')
+                else:
+                    refs = [('c', i) for i in range(len(chunks)) if chunks[i] is not None and rng.random() < 0.5] + \
+                           [('l', i) for i in range(len(loops)) if rng.random() < 0.5]
+                    rng.shuffle(refs)
+                    content = [chunks[i] if kk == 'c' else loops[i] for kk, i in refs]
+                last_list = (content, refs)
+                name = rand_name(rng)
+                blocks.append(cif.Block(name, content if content or rng.random() < 0.5 else None, comment=rand_comment(rng)))
+                ops.append({'op': 'block', 'name': T.cps(name), 'content': [{'k': kk, 'i': i + 1} for kk, i in refs]})
+            elif k == 'add':
+                b = rng.randrange(len(blocks))
+                cands = [('c', i) for i in range(len(chunks)) if chunks[i] is not None] + [('l', i) for i in range(len(loops))]
+                if not cands:
+                    continue
+                kk, i = rng.choice(cands)
+                blocks[b].add(chunks[i] if kk == 'c' else loops[i])
+                ops.append({'op': 'add', 'b': b + 1, 'k': kk, 'i': i + 1})
+                feats.add('add after construction')
+            elif k == 'adddict':
+                b = rng.randrange(len(blocks))
+                d = {tag(): value() for _ in range(rng.choice([1, 1, 2]))}
+                if rng.random() < 0.5:
+                    blocks[b].add(d, comment=rand_comment(rng))
+                else:
+                    blocks[b].add(list(d.items()))
+                chunks.append(None)         # the chunk made by add() is not reachable from outside; keeps the numbering
+                ops.append({'op': 'adddict', 'b': b + 1, 'pairs': pairs_of(d)})
+                feats.add('mapping handed to Block.add')
+            elif k == 'copy':
+                b = rng.randrange(len(blocks))
+                blocks.append(blocks[b].copy())
+                ops.append({'op': 'copy', 'b': b + 1})
+                feats.add('Block.copy')
+        except Exception as e:  # noqa: BLE001
+            ctx.violation(f'objects: {k} operation raised {type(e).__name__} for admissible input', {'ops': [o['op'] for o in ops], 'exc': repr(e)[:300]})
+            return tid
+        if k != 'write':
+            continue
+        which = rng.sample(range(len(blocks)), rng.choice([1, 1, 1, min(2, len(blocks))]))
+        wops = [*ops, {'op': 'write', 'blocks': [b + 1 for b in which]}]
+        text, exc = None, None
+        try:
+            buf = io.StringIO()
+            arg = blocks[which[0]] if len(which) == 1 and rng.random() < 0.7 else [blocks[b] for b in which]
+            if isinstance(arg, list) and rng.random() < 0.3:
+                arg = tuple(arg) if rng.random() < 0.5 else (b for b in arg)      # any iterable of blocks
+            cif.save_cif(buf, arg, comment=rand_comment(rng))
+            text = buf.getvalue()
+        except Exception as e:  # noqa: BLE001
+            exc = f'{type(e).__name__}: {e}'[:300]
+        events.append({'tid': tid, 'api': 'objects', 'out': 'text' if text is not None else 'raised',
+                       'text': T.cps(text) if text is not None else [], 'blocks': [], 'name': [], 'calls': [],
+                       'ops': _strip_private(wops, text)})
+        metas[tid] = {'api': 'objects', 'text': text, 'exc': exc, 'exc_type': exc.split(':')[0] if exc else None,
+                      'ops': [o['op'] for o in wops], 'features': sorted(feats), 'strings': list(strings), 'flavour': flavour,
+                      'phase': 'main', 'orig': None}
+        ctx.case(nontrivial_id=('o', tid) if len(wops) >= 4 else None)
+        tid += 1
     return tid
 
 
@@ -686,16 +1065,40 @@ def _cell_to_val(cell):
 
 
 def judge_rejects(ctx, rejects, metas):
+    rejected_tids = {r[2] for r in rejects}
     # smallest files first: the details kept per key (5) are then the minimal reproducers
     for rej in sorted(rejects, key=lambda r: (len(metas[r[2]]['text'] or ''), r[2])):
         _, _line, tid, clause, b, j, c, le, pe, cell = rej
         meta = metas[tid]
         text = meta['text']
         detail = {'clause': clause, 'where': [b, j, c], 'lex_error': le, 'parse_error': pe, 'text': (text or '')[:500]}
+        # a case that was accepted when it ran first and is rejected when it runs again later: the history matters
+        later = ' [only when written again later, in another order]' if meta.get('orig') is not None and meta['orig'] not in rejected_tids else ''
+        if text is not None and '\r' in text:
+            # values with CR are never supplied: the CR comes from comment text (CR / CR LF line ends)
+            ctx.violation(f'{meta["api"]}: comment text with CR or CR LF line ends: the CR is written into the comment line '
+                          '(CIF ends the line there, what follows is read as data)' + later, detail)
+            continue
+        if clause == 'version_identifier_is_not_CIF_1.1':
+            ctx.violation(f'{meta["api"]}: the file announces a CIF version other than 1.1 in its first line', detail)
+            continue
+        if meta['api'] == 'objects':
+            detail |= {'operations': meta['ops'], 'strings': meta['strings'][:12], 'exc': meta['exc']}
+            feats = ', '.join(meta['features']) or 'construction only'
+            if clause == 'exception_for_representable_content':
+                ctx.violation(f'objects: {meta["exc_type"]} raised by save_cif for representable content ({feats})', detail)
+            else:
+                what = clause if clause != 'syntax' else f'syntax ({le or pe})'
+                ctx.violation(f'objects: {what} in a program with: {feats}', detail)
+            continue
         if meta['api'] == 'lowlevel':
             doc = meta['doc']
             allvals = [v for _, items in meta['exp'] for _, _, vs in items for v in vs]
             detail['doc'] = doc.label
+            if clause == 'exception_for_representable_content' and meta.get('exc_type') == 'DTypeError' and \
+                    any(v.kind == 'n' and isinstance(v.v, int) for v in allvals):
+                refused_int(ctx)      # integer-typed number among the operands: refusal accepted (lead decision)
+                continue
             if clause == 'exception_for_representable_content':
                 val = doc.special
                 cls = val.cls() if val is not None else 'several values'
@@ -713,18 +1116,26 @@ def judge_rejects(ctx, rejects, metas):
                     key = f'lowlevel: {clause} outside the supplied items'
                 else:
                     key = _key_for('lowlevel', clause, val, text, _tag_of(meta, val))
-            ctx.violation(key, detail | {'value': val.show() if val else None, 'reproduce': _repro_lowlevel(val, doc)})
+            ctx.violation(key + later, detail | {'value': val.show() if val else None, 'reproduce': _repro_lowlevel(val, doc)})
         else:
             bs = meta['bs']
             ops = [c['op'] for c in bs.calls]
             detail['calls'] = ops
             awkward = _awkward([S(s) for s in bs.strings])
+            if clause == 'exception_for_representable_content' and meta.get('exc_type') == 'DTypeError' and \
+                    any(c.get('_int') for c in bs.calls):
+                refused_int(ctx)
+                continue
             if clause == 'exception_for_representable_content':
                 ctx.violation(f'builder: {meta["exc_type"]} raised by save() for representable content',
                               detail | {'exc': meta['exc'], 'strings': bs.strings[:20]})
                 continue
             if clause in ('author_and_role_ids_inconsistent', 'role_id_without_exactly_one_author_id'):
-                ctx.violation(f'builder: {clause}', detail)
+                ctx.violation(f'builder: {clause}' + later, detail)
+                continue
+            if clause == 'block_name':
+                ctx.violation('builder: the block does not carry the name this builder was given (constructor, or name setter used '
+                              'on it)' + later, detail | {'saved_with': meta.get('how')})
                 continue
             val = None
             if clause == 'syntax':
@@ -745,7 +1156,8 @@ def judge_rejects(ctx, rejects, metas):
                              'none': 'no'}.get(kind, kind)
                     key = f'builder: {clause} at {kname} cell of item _{tag}' if tag else \
                         f'builder: {clause}: items missing or added at the end of the block'
-            ctx.violation(key, detail | {'value': val.show() if val else None, 'awkward_strings': [v.v for v in awkward][:5]})
+            ctx.violation(key + later, detail | {'value': val.show() if val else None, 'awkward_strings': [v.v for v in awkward][:5],
+                                                 'saved_with': meta.get('how')})
 
 
 def _repro_lowlevel(val, doc):
@@ -825,6 +1237,19 @@ def run(ctx):
                'facility names that trigger the undocumented probe/device deduction are not used without a Source')
     ctx.assume('non-ASCII: only "the output is ASCII, the token structure is unchanged and the ASCII parts survive in '
                'order" is demanded, not a particular escape')
+    ctx.assume('comments may contain CR / CR LF line ends (CIF 1.1 counts a bare CR as a line terminator: what follows a CR '
+               'inside a comment is data); values with CR remain untested (DESIGN 3.4)')
+    ctx.assume('a version identifier in the first line is optional, but if the file starts with #\\#CIF_ it must say 1.1')
+    ctx.assume('single-precision numbers are generated outside 1e7 <= |x| < 1e16, where numpy pads the shortest identifying '
+               'digits with zeros (-42670174208 is printed as -42670174000.0); integer and single-precision numbers only '
+               'without variances')
+    ctx.assume('a scipp DTypeError raised by a builder / Loop / Chunk call that was handed at least one integer-typed numeric '
+               'operand is an accepted refusal (no document is produced; same reading as C07, C16); every document that is '
+               'produced from integer-typed data is judged in full; any other exception, or a DTypeError without an integer '
+               'operand, is a violation')
+    ctx.assume('object programs: a pair or column is only ever added under a new data name (what overwriting an existing '
+               'name does to the order is not specified); whether a block starts with the dictionary-conformance loop is '
+               'not judged for object programs (Block.copy adds the coreCIF schema)')
     th = ctx.thorough
     nw = int(os.environ.get('VERIF_TLC_WORKERS', '16'))   # developers on a shared machine set this lower
 
@@ -834,6 +1259,7 @@ def run(ctx):
     suffix = '_thorough.cfg' if th else '.cfg'
     model_runs = [('textio/MC_CifLexer.tla', 'MC_CifLexer' + suffix, False), ('textio/MC_CifDoc.tla', 'MC_CifDoc' + suffix, False),
                   ('textio/CifDocBuilder.tla', 'MC_CifDocBuilder' + suffix, False),
+                  ('textio/MC_CifObjects.tla', 'MC_CifObjects' + suffix, False), ('textio/MC_CifObjects.tla', 'Neg_CifObjects_copylist.cfg', True),
                   ('textio/MC_CifLexer.tla', 'Neg_CifLexer_naive.cfg', True), ('textio/MC_CifLexer.tla', 'Neg_CifLexer_lfsemi.cfg', True),
                   ('textio/MC_CifDoc.tla', 'Neg_CifDoc.cfg', True), ('textio/CifDocBuilder.tla', 'Neg_CifDocBuilder.cfg', True)]
     model_results, model_errors = {}, []
@@ -857,9 +1283,14 @@ def run(ctx):
     events, metas = [], {}
     tid = 0
 
-    def add(doc):
+    written_docs = []
+
+    def add(doc, phase='main', orig=None):
         nonlocal tid
         ev, meta = lowlevel_event(ctx, tid, doc, ctx.tmp)
+        meta['phase'], meta['orig'] = phase, orig
+        if phase == 'main':
+            written_docs.append((doc, tid))
         events.append(ev)
         metas[tid] = meta
         vals = [v for _, items in meta['exp'] for _, _, vs in items for v in vs]
@@ -896,13 +1327,38 @@ def run(ctx):
     counter = [0]
     for i in range(2400 if th else 240):
         add(rand_doc(rng, ('clean', 'one', 'clean', 'one', 'clean', 'all')[i % 6], counter))
+    ctx.extra['integer_operands_refused_with_DTypeError'] = 0
     ctx.extra['lowlevel_files'] = tid
     n_low = tid
 
     # ---------------------------------------------------------------- 3. conformance, builder (M2)
+    saved_builders = []
+    for force in ({'force_op': 'data', 'force_cdt': 'int64'}, {'force_op': 'data', 'force_ydt': 'int64'},
+                  {'force_op': 'calib', 'force_caldt': 'int64'}, {'force_op': 'data', 'force_cdt': 'int32', 'force_ydt': 'float32'},
+                  {'force_op': 'data', 'force_cdt': 'float32', 'force_ydt': 'int32'}, {'force_op': 'calib', 'force_caldt': 'float32'}):
+        tid = run_builder_program(ctx, rng, 'clean', tid, events, metas, keep=saved_builders, force=force)
     for i in range(1500 if th else 150):
-        tid = run_builder_program(ctx, rng, ('clean', 'one', 'clean', 'all')[i % 4], tid, events, metas)
+        tid = run_builder_program(ctx, rng, ('clean', 'one', 'clean', 'all')[i % 4], tid, events, metas, keep=saved_builders)
     ctx.extra['builder_saves'] = tid - n_low
+
+    # ---------------------------------------------------------------- 3b. conformance, programs over Chunk / Loop / Block objects
+    n_before = tid
+    for i in range(2500 if th else 260):
+        tid = run_object_program(ctx, rng, ('clean', 'clean', 'one', 'all')[i % 4], tid, events, metas)
+    ctx.extra['object_program_writes'] = tid - n_before
+
+    # ---------------------------------------------------------------- 3c. a sample of all cases again, in another order (HARDENING 6):
+    # the same plans / the same builder objects, written once more after everything else has happened
+    n_before = tid
+    again = rng.sample(written_docs, min(len(written_docs), 2500 if th else 260))
+    for doc, otid in reversed(again):
+        add(doc, phase='again', orig=otid)
+    again_b = rng.sample(saved_builders, min(len(saved_builders), 1500 if th else 160))
+    rng.shuffle(again_b)
+    for target, flavour, otid in again_b:
+        record_builder_save(ctx, rng, tid, target, flavour, events, metas, phase='again', orig=otid)
+        tid += 1
+    ctx.extra['written_again_in_another_order'] = tid - n_before
     ctx.extra['characters_lexed_by_tlc'] = sum(len(e['text']) for e in events)
     for e in (events[300], events[n_low - 1], events[-1]):
         ctx.sample({k: (v if k not in ('text',) else ''.join(map(chr, v))[:300]) for k, v in e.items()
@@ -943,9 +1399,12 @@ META = {
                  '(text handed to TLC as code points)',
     'text': 'TLC proves on all strings up to length 5 over the CIF-significant alphabet that a faithful quoting exists '
             'exactly for strings without LF+";" and that comments never become tokens, and on bounded documents / builder '
-            'call sequences that the reference writer reads back and every role id names exactly one author. The real '
+            'call sequences / programs over Chunk, Loop and Block objects that the reference writer reads back, every role '
+            'id names exactly one author and copies are independent. The real '
             'Chunk/Loop/Block/save_cif and the CIF builder are then driven with that string set, reserved words, numbers '
-            'with/without variances, non-ASCII text, loops up to 50x6 and random builder programs; TLC lexes and parses '
+            'with/without variances (64- and 32-bit, numpy scalars, strided columns), non-ASCII text, comments with CR, '
+            'loops up to 50x6, random builder programs and random object programs, and a sample is written again at the '
+            'end in another order; TLC lexes and parses '
             'every produced file with the specification and compares it with what was supplied.',
     'note': 'Trusted: TLC, the JSON transport, scipp. Numeric closeness of number tokens (printed precision, su = '
             'sqrt(variance)) is decided by the harness with exact rationals/mpmath and bound to the token TLC sees. '
